@@ -86,7 +86,7 @@ func newTaint(t *tape.Tape, tier Tier, res *Result, alpha gen.Alphabet, allowUnk
 	}
 	res.Desc.Routes = []string{routeString(append([]int{0}, ts.route...))}
 	ts.sim.DupNum = 0
-	if alpha == gen.Hostile && t.Bool(1, 3) {
+	if alpha == gen.Hostile && prop != "C12" && t.Bool(1, 3) {
 		// a peer controls the bytes on the wire: at one drawn hop one string
 		// field of one wire node (message/prefix, a reportable string, the
 		// type name) is replaced by a hostile string
@@ -517,7 +517,13 @@ func (c12) Rule() string {
 
 func (c12) Run(t *tape.Tape, tier Tier) *Result {
 	res := &Result{}
-	ts := newTaint(t, tier, res, gen.Regular, false, "C12")
+	alpha := gen.Regular
+	if t.Draw(4) == 3 {
+		// constant messages and Safe() arguments stay declared safe whatever
+		// characters they contain
+		alpha = gen.Hostile
+	}
+	ts := newTaint(t, tier, res, alpha, false, "C12")
 	var safe []gen.Token
 	for _, tok := range ts.tokens {
 		if tok.Safe && !tok.Neutral && !tok.UnderMark {
